@@ -5,6 +5,7 @@ from .. import histprop as H
 ID = 'C06'
 LEVEL = 'exploration'
 RULE = (
+    'S: every position of the dynamic-reordering trigger (whose sifting starts with a collection) for entry points that hold intermediate results as integers (as in C09). '
     'H: Hypothesis-generated histories (dd.bdd, 2-5 variables) over build/'
     'apply/ite/quantify/let (result kept or left as garbage), incref, '
     'decref, decref of a zero-count node, drop, collect_garbage(), '
@@ -26,7 +27,7 @@ ASSUMPTIONS = [
 ]
 
 ALPHA = {
-    'build': 6, 'repeat': 5, 'var': 2, 'cube': 2, 'apply': 8, 'not': 1, 'ite': 3,
+    'build': 6, 'repeat': 5, 'churn': 3, 'fork': 1, 'var': 2, 'cube': 2, 'apply': 8, 'not': 1, 'ite': 3,
     'quantify': 3, 'let_const': 2, 'let_rename': 2, 'let_compose': 2,
     'add_expr': 2, 'incref': 3, 'decref': 3, 'decref_zero': 1, 'drop': 6,
     'gc': 6, 'gc_roots': 4, 'swap': 3, 'sift': 1, 'reorder_to': 1,
@@ -65,6 +66,11 @@ def plan(tier, seed):
             dict(kind='bdd', nmax=4, init_vars=3, reordering=True,
                  reorder_starts=2)]
     specs = []
+    # trigger-position sweeps of dynamic reordering (machinery of C09)
+    for s_ in range(6 if tier == 'thorough' else 2):
+        specs.append(dict(kind='schedule', seed=seed * 100 + 60 + s_,
+                          only=['image', 'preimage', 'copy', 'load_pickle', 'cube', 'add_expr', 'let_compose'],
+                          examples=200 if tier == 'thorough' else 35))
     k = 16 if tier == 'thorough' else 12
     for s in range(k):
         specs.append(dict(kind='random', seed=seed * 1000 + s, cfgs=cfgs,
@@ -77,10 +83,17 @@ def plan(tier, seed):
 
 
 def run(spec, out):
+    if spec['kind'] == 'schedule':
+        from . import c09
+        return c09.run_schedule(spec, out)
     if spec['kind'] == 'random':
         H.run_random(spec, out, ALPHA, nontrivial)
     else:
         H.run_exhaustive(spec, out, nontrivial)
 
 
-replay_into = H.replay_into
+def replay_into(case, out):
+    if case.get('kind') == 'schedule':
+        from . import c09
+        return c09.replay_into(case, out)
+    return H.replay_into(case, out)
